@@ -13,9 +13,10 @@
       rb_steps_exact, ab_steps_exact;
    2. C06 at the five fixed-priority / FIFO entry points;
    3. C06 at the four EDF entry points;
-   4. C20: e_dedicated_no_panic (FP, FIFO), e_edf_no_panic (EDF);
+   4. C20: e_dedicated_no_panic (FP, FIFO), e_edf_{fp,fnp,np,lp}_total and e_edf_no_panic (EDF);
    5. independence of the build profile (dbg) for all nine entry points;
-   6. concrete instances (the hypotheses are satisfiable; both sides evaluated with vm_compute). *)
+   6. concrete instances (the hypotheses are satisfiable; both sides evaluated with vm_compute);
+   7. regression for finding C20-edf-never-tua: edf_np_never_tua_repaired, edf_lp_never_tua_repaired. *)
 From Coq Require Import List NArith Lia Bool Sorting.Sorted.
 From RTA.Model Require Import Base Arrival Wcet Demand Supply FixedPoint Analyses Ros2 Eval WellFormed.
 From RTA.Spec Require Import Exhaustive.
@@ -328,24 +329,115 @@ Proof.
 Qed.
 Print Assumptions e_dedicated_no_panic.
 
-(* the same for the four EDF entry points *)
+(* the four EDF entry points.  Since the subtraction self_interference - rem_cost of the NP- and LP-EDF analyses
+   saturates (edf_rta has no panic test any more), monotone request bounds suffice (edf_generic_total): the task
+   under analysis need not be able to release a job (arrival::Never, sparse ApproximatedPoisson), and neither the
+   step class of C11 nor positive costs of the other tasks are needed *)
+Theorem e_edf_fp_total : forall dbg tua D others limit, wf_rb tua ->
+  Forall (fun o : RB * N => wf_rb (fst o)) others ->
+  e_edf_fp dbg tua D others limit <> RPanic /\
+  e_edf_fp dbg tua D others limit = e_edf_fp (negb dbg) tua D others limit.
+Proof.
+  intros dbg tua D others limit Hwf Hall. unfold e_edf_fp. apply edf_generic_total.
+  - apply sn_mono; exact Hwf.
+  - intros o Ho. apply in_map_iff in Ho. destruct Ho as [[rb Do] [<- Hin]].
+    rewrite Forall_forall in Hall. specialize (Hall _ Hin). cbn [fst snd other_of_rb o_rbf] in *.
+    apply sn_mono; exact Hall.
+Qed.
+Print Assumptions e_edf_fp_total.
+
+Lemma others_rb_mono : forall (others : list (RB * N * N)),
+  Forall (fun o => wf_rb (fst (fst o))) others ->
+  forall o, In o (map other_of_rb others) -> mono (o_rbf o).
+Proof.
+  intros others Hall o Ho. apply in_map_iff in Ho. destruct Ho as [[[rb D] seg] [<- Hin]].
+  rewrite Forall_forall in Hall. specialize (Hall _ Hin). cbn [fst other_of_rb o_rbf] in *.
+  apply sn_mono. exact Hall.
+Qed.
+
+Theorem e_edf_fnp_total : forall dbg tua D (others : list (RB * N * N)) limit, wf_rb tua ->
+  Forall (fun o => wf_rb (fst (fst o))) others ->
+  e_edf_fnp dbg tua D others limit <> RPanic /\
+  e_edf_fnp dbg tua D others limit = e_edf_fnp (negb dbg) tua D others limit.
+Proof.
+  intros dbg tua D others limit Hwf Hall. unfold e_edf_fnp. apply edf_generic_total.
+  - apply sn_mono; exact Hwf.
+  - apply others_rb_mono. exact Hall.
+Qed.
+Print Assumptions e_edf_fnp_total.
+
+Theorem e_edf_np_total : forall dbg ab C D (others : list (AB * N * N)) limit, wf_ab ab -> 1 <= C ->
+  Forall (fun o => wf_ab (fst (fst o))) others ->
+  e_edf_np dbg ab C D others limit <> RPanic /\
+  e_edf_np dbg ab C D others limit = e_edf_np (negb dbg) ab C D others limit.
+Proof.
+  intros dbg ab C D others limit Hwf HC Hall. unfold e_edf_np.
+  replace (1 <=? C) with true by (symmetry; apply N.leb_le; exact HC).
+  apply edf_generic_total.
+  - apply scaled_mono. apply na_mono'; exact Hwf.
+  - intros o Ho. apply in_map_iff in Ho. destruct Ho as [[[a Co] Do] [<- Hin]].
+    rewrite Forall_forall in Hall. specialize (Hall _ Hin). cbn [fst snd other_of_ab o_rbf] in *.
+    apply scaled_mono. apply na_mono'; exact Hall.
+Qed.
+Print Assumptions e_edf_np_total.
+
+Theorem e_edf_lp_total : forall dbg ab C D last (others : list (RB * N * N)) limit, wf_ab ab ->
+  1 <= last -> last <= C -> Forall (fun o => wf_rb (fst (fst o))) others ->
+  e_edf_lp dbg ab C D last others limit <> RPanic /\
+  e_edf_lp dbg ab C D last others limit = e_edf_lp (negb dbg) ab C D last others limit.
+Proof.
+  intros dbg ab C D last others limit Hwf Hl HC Hall. unfold e_edf_lp.
+  replace ((1 <=? last) && (last - 1 <=? C)) with true.
+  2:{ symmetry. apply andb_true_iff. split; apply N.leb_le; lia. }
+  apply edf_generic_total.
+  - apply scaled_mono. apply na_mono'; exact Hwf.
+  - apply others_rb_mono. exact Hall.
+Qed.
+Print Assumptions e_edf_lp_total.
+
+Lemma Forall_rb_steps_ok_wf : forall (others : list (RB * N * N)),
+  Forall (fun o => rb_steps_ok (fst (fst o))) others -> Forall (fun o => wf_rb (fst (fst o))) others.
+Proof.
+  intros others H. apply Forall_forall. intros o Ho. rewrite Forall_forall in H.
+  apply rb_steps_ok_wf. exact (H o Ho).
+Qed.
+
+Lemma Forall_rb_steps_ok_wf2 : forall (others : list (RB * N)),
+  Forall (fun o => rb_steps_ok (fst o)) others -> Forall (fun o => wf_rb (fst o)) others.
+Proof.
+  intros others H. apply Forall_forall. intros o Ho. rewrite Forall_forall in H.
+  apply rb_steps_ok_wf. exact (H o Ho).
+Qed.
+
+Lemma Forall_ab_wf : forall (others : list (AB * N * N)),
+  Forall (fun o => wf_ab (fst (fst o)) /\ steps_exact_class (fst (fst o)) /\ 1 <= snd (fst o)) others ->
+  Forall (fun o => wf_ab (fst (fst o))) others.
+Proof.
+  intros others H. apply Forall_forall. intros o Ho. rewrite Forall_forall in H.
+  exact (proj1 (H o Ho)).
+Qed.
+
+(* the statement of earlier revisions, minus the hypotheses [0 < sn tua 1] / [0 < na ab 1] that the task under
+   analysis can release a job: for NP- and LP-EDF the hypothesis was needed (self_interference - rem_cost used to
+   underflow without it, finding C20-edf-never-tua), for EDF-FP and floating NP-EDF it was an artefact of the
+   proof through the exhaustive evaluator *)
 Theorem e_edf_no_panic : forall dbg limit,
-  (forall tua D others, rb_steps_ok tua -> 0 < sn tua 1 ->
+  (forall tua D others, rb_steps_ok tua ->
      Forall (fun o : RB * N => rb_steps_ok (fst o)) others -> e_edf_fp dbg tua D others limit <> RPanic) /\
-  (forall tua D (others : list (RB * N * N)), rb_steps_ok tua -> 0 < sn tua 1 ->
+  (forall tua D (others : list (RB * N * N)), rb_steps_ok tua ->
      Forall (fun o => rb_steps_ok (fst (fst o))) others -> e_edf_fnp dbg tua D others limit <> RPanic) /\
-  (forall ab C D (others : list (AB * N * N)), wf_ab ab -> steps_exact_class ab -> 0 < na ab 1 -> 1 <= C ->
+  (forall ab C D (others : list (AB * N * N)), wf_ab ab -> steps_exact_class ab -> 1 <= C ->
      Forall (fun o => wf_ab (fst (fst o)) /\ steps_exact_class (fst (fst o)) /\ 1 <= snd (fst o)) others ->
      e_edf_np dbg ab C D others limit <> RPanic) /\
-  (forall ab C D last (others : list (RB * N * N)), wf_ab ab -> steps_exact_class ab -> 0 < na ab 1 ->
+  (forall ab C D last (others : list (RB * N * N)), wf_ab ab -> steps_exact_class ab ->
      1 <= last -> last <= C -> Forall (fun o => rb_steps_ok (fst (fst o))) others ->
      e_edf_lp dbg ab C D last others limit <> RPanic).
 Proof.
   intros dbg limit. repeat split.
-  - intros tua D others H1 H2 H3. rewrite e_edf_fp_exhaustive by assumption. apply exh_edf_not_panic.
-  - intros tua D others H1 H2 H3. rewrite e_edf_fnp_exhaustive by assumption. apply exh_edf_not_panic.
-  - intros ab C D others H1 H2 H3 H4 H5. rewrite e_edf_np_exhaustive by assumption. apply exh_edf_not_panic.
-  - intros ab C D last others H1 H2 H3 H4 H5 H6. rewrite e_edf_lp_exhaustive by assumption. apply exh_edf_not_panic.
+  - intros tua D others H1 H3. apply e_edf_fp_total; [apply rb_steps_ok_wf; exact H1|apply Forall_rb_steps_ok_wf2; exact H3].
+  - intros tua D others H1 H3. apply e_edf_fnp_total; [apply rb_steps_ok_wf; exact H1|apply Forall_rb_steps_ok_wf; exact H3].
+  - intros ab C D others H1 _ H4 H5. apply e_edf_np_total; [exact H1|exact H4|apply Forall_ab_wf; exact H5].
+  - intros ab C D last others H1 _ H4 H5 H6. apply e_edf_lp_total; [exact H1|exact H4|exact H5|apply Forall_rb_steps_ok_wf; exact H6].
 Qed.
 Print Assumptions e_edf_no_panic.
 
@@ -380,30 +472,42 @@ Theorem e_fifo_profile_independent : forall limit rb, rb_steps_ok rb -> 0 < sn r
 Proof. intros limit rb H1 H2. rewrite !e_fifo_exhaustive by assumption. reflexivity. Qed.
 Print Assumptions e_fifo_profile_independent.
 
-Theorem e_edf_fp_profile_independent : forall limit tua D others, rb_steps_ok tua -> 0 < sn tua 1 ->
+Theorem e_edf_fp_profile_independent : forall limit tua D others, rb_steps_ok tua ->
   Forall (fun o : RB * N => rb_steps_ok (fst o)) others ->
   e_edf_fp true tua D others limit = e_edf_fp false tua D others limit.
-Proof. intros limit tua D others H1 H2 H3. rewrite !e_edf_fp_exhaustive by assumption. reflexivity. Qed.
+Proof.
+  intros limit tua D others H1 H3.
+  apply (e_edf_fp_total true); [apply rb_steps_ok_wf; exact H1|apply Forall_rb_steps_ok_wf2; exact H3].
+Qed.
 Print Assumptions e_edf_fp_profile_independent.
 
 Theorem e_edf_fnp_profile_independent : forall limit tua D (others : list (RB * N * N)),
-  rb_steps_ok tua -> 0 < sn tua 1 -> Forall (fun o => rb_steps_ok (fst (fst o))) others ->
+  rb_steps_ok tua -> Forall (fun o => rb_steps_ok (fst (fst o))) others ->
   e_edf_fnp true tua D others limit = e_edf_fnp false tua D others limit.
-Proof. intros limit tua D others H1 H2 H3. rewrite !e_edf_fnp_exhaustive by assumption. reflexivity. Qed.
+Proof.
+  intros limit tua D others H1 H3.
+  apply (e_edf_fnp_total true); [apply rb_steps_ok_wf; exact H1|apply Forall_rb_steps_ok_wf; exact H3].
+Qed.
 Print Assumptions e_edf_fnp_profile_independent.
 
 Theorem e_edf_np_profile_independent : forall limit ab C D (others : list (AB * N * N)),
-  wf_ab ab -> steps_exact_class ab -> 0 < na ab 1 -> 1 <= C ->
+  wf_ab ab -> steps_exact_class ab -> 1 <= C ->
   Forall (fun o => wf_ab (fst (fst o)) /\ steps_exact_class (fst (fst o)) /\ 1 <= snd (fst o)) others ->
   e_edf_np true ab C D others limit = e_edf_np false ab C D others limit.
-Proof. intros limit ab C D others H1 H2 H3 H4 H5. rewrite !e_edf_np_exhaustive by assumption. reflexivity. Qed.
+Proof.
+  intros limit ab C D others H1 _ H4 H5.
+  apply (e_edf_np_total true); [exact H1|exact H4|apply Forall_ab_wf; exact H5].
+Qed.
 Print Assumptions e_edf_np_profile_independent.
 
 Theorem e_edf_lp_profile_independent : forall limit ab C D last (others : list (RB * N * N)),
-  wf_ab ab -> steps_exact_class ab -> 0 < na ab 1 -> 1 <= last -> last <= C ->
+  wf_ab ab -> steps_exact_class ab -> 1 <= last -> last <= C ->
   Forall (fun o => rb_steps_ok (fst (fst o))) others ->
   e_edf_lp true ab C D last others limit = e_edf_lp false ab C D last others limit.
-Proof. intros limit ab C D last others H1 H2 H3 H4 H5 H6. rewrite !e_edf_lp_exhaustive by assumption. reflexivity. Qed.
+Proof.
+  intros limit ab C D last others H1 _ H4 H5 H6.
+  apply (e_edf_lp_total true); [exact H1|exact H4|exact H5|apply Forall_rb_steps_ok_wf; exact H6].
+Qed.
 Print Assumptions e_edf_lp_profile_independent.
 
 (* ------------------------------------------------------------------------------------------ *)
@@ -458,3 +562,35 @@ Example fp_fp_instance : forall dbg,
   e_fp_fp dbg (Agg [RBF (Periodic 9) (Scalar 1); RBF (Sporadic 11 3) (Multiframe [2; 1])]) [RBF (Periodic 20) (Scalar 3)] 200
   = exh_fp 0 0 (sn (Agg [RBF (Periodic 9) (Scalar 1); RBF (Sporadic 11 3) (Multiframe [2; 1])])) (sum_sn [RBF (Periodic 20) (Scalar 3)]) 200.
 Proof. intros dbg. destruct fp_fp_instance_hyps as (H1 & H2 & H3). apply e_fp_fp_exhaustive; assumption. Qed.
+
+(* ------------------------------------------------------------------------------------------ *)
+(* 7. regression: finding C20-edf-never-tua                                                    *)
+(* ------------------------------------------------------------------------------------------ *)
+
+(* (edf_np ((never) 9 93) (((periodic 30) 12 17)) 200): the task under analysis never arrives, the search space
+   consists of the offsets stemming from the other task's steps (here A = 0), where self_interference = 0 <
+   rem_cost = 8.  Before the repair (self_interference - rem_cost, checked): panic in the debug build; the release
+   build wrapped around twice (rhs = 0 + (2^64 - 8) + 12 = 4 mod 2^64, AF = 4) and returned Ok(4 + 8) = Ok(12).
+   With saturating_sub: rhs = 0 + 0 + 12, AF = 12, Ok(12 + 8) = Ok(20) in both profiles (value confirmed by running
+   both builds of the crate with the one-line repair applied) *)
+Theorem edf_np_never_tua_repaired : forall dbg,
+  e_edf_np dbg Never 9 93 [(Periodic 30, 12, 17)] 200 = ROk 20.
+Proof. intros [|]; vm_compute; reflexivity. Qed.
+Print Assumptions edf_np_never_tua_repaired.
+
+(* (edf_lp ((never) 9 93 4) (((rbf (periodic 30) (scalar 12)) 17 3)) 200): rem_cost = 3; before the repair panic /
+   Ok(12) (wrap-around); repaired: AF = 12, Ok(12 + 3) = Ok(15) in both profiles *)
+Theorem edf_lp_never_tua_repaired : forall dbg,
+  e_edf_lp dbg Never 9 93 4 [(RBF (Periodic 30) (Scalar 12), 17, 3)] 200 = ROk 15.
+Proof. intros [|]; vm_compute; reflexivity. Qed.
+Print Assumptions edf_lp_never_tua_repaired.
+
+(* the witnesses are instances of e_edf_np_total / e_edf_lp_total: their hypotheses hold *)
+Example edf_np_never_tua_hyps :
+  wf_ab Never /\ 1 <= 9 /\ Forall (fun o : AB * N * N => wf_ab (fst (fst o))) [(Periodic 30, 12, 17)].
+Proof. split; [exact I|]. split; [lia|]. constructor; [cbn; lia|constructor]. Qed.
+
+Example edf_lp_never_tua_hyps :
+  wf_ab Never /\ 1 <= 4 /\ 4 <= 9 /\
+  Forall (fun o : RB * N * N => wf_rb (fst (fst o))) [(RBF (Periodic 30) (Scalar 12), 17, 3)].
+Proof. split; [exact I|]. split; [lia|]. split; [lia|]. constructor; [cbn; split; [lia|exact I]|constructor]. Qed.
